@@ -111,6 +111,57 @@ def _alt(rng, nargs, base, nloc, compiled):
     rng.shuffle(eqs)
     return eqs
 
+def _flatten(node, prefix=None):
+    """the alternatives of a tree of choice points: the equations along every path, in depth-first order"""
+    here = (prefix or []) + node['eqs']
+    if not node['kids']:
+        return [here]
+    out = []
+    for k in node['kids']:
+        out.extend(_flatten(k, here))
+    return out
+
+def _tree(rng, nargs, nloc):
+    """Equations spread over several clause LEVELS: a node binds some of the still unbound variables, then a choice
+    point follows whose alternatives (kids) go on; bindings made above a choice point stay while its alternatives
+    are tried.  Acyclic by a rank shared by the whole tree.  Many variable-to-variable links, so that alias chains
+    start above a choice point and are completed differently below it."""
+    vs = list(range(nargs + nloc))
+    if rng.random() < 0.6:
+        a = vs[:nargs]; l = vs[nargs:]
+        rng.shuffle(a); rng.shuffle(l)
+        order = a + l                       # query variables outermost
+    else:
+        order = vs[:]
+        rng.shuffle(order)
+    pos = {v: i for i, v in enumerate(order)}
+    leaves = [0]
+    def node(unbound, depth):
+        eqs = []
+        left = []
+        for v in unbound:
+            higher = order[pos[v] + 1:]
+            if rng.random() < (0.45 if depth < 2 else 0.7):
+                q = rng.random()
+                if higher and q < 0.6:
+                    t = ['v', higher[0] if rng.random() < 0.6 else rng.choice(higher)]
+                elif q < 0.8:
+                    t = rng.choice([['a', 'early'], ['a', 'late'], ['i', 1], ['a', '[]']])
+                else:
+                    t = _rand_struct(rng, higher, rng.choice([1, 2]), True)
+                eqs.append([['v', v], t] if rng.random() < 0.8 else [t, ['v', v]])
+            else:
+                left.append(v)
+        rng.shuffle(eqs)
+        kids = []
+        if depth < 3 and leaves[0] < 6 and rng.random() < (0.9 if depth == 0 else 0.5):
+            for _ in range(rng.choice([2, 2, 3])):
+                kids.append(node(left, depth + 1))
+        if not kids:
+            leaves[0] += 1
+        return {'eqs': eqs, 'kids': kids}
+    return node(order, 0)
+
 def _compilable(t):
     if t[0] == 's':
         return ['a', 'c']
@@ -158,6 +209,16 @@ def gen(rng, tier):
             probes = _probes(rng, list(range(nargs)), True) if mode == 'compiled' else [['f', 'w', [['v', v] for v in range(nargs)]]]
         cases.append({'mode': mode, 'nargs': nargs, 'nvars': total, 'alts': alts, 'probes': probes,
                       'shuffle': rng.randrange(50), 'listsyntax': rng.random() < 0.7})
+    # choice points at several clause levels: the query variables are read at EVERY answer while bindings made above
+    # a choice point are still active and the ones below it have been replaced by those of the next alternative
+    for i in range(250 if tier == 'quick' else 5000):
+        nargs = rng.choice([1, 1, 2, 3])
+        nloc = rng.choice([1, 2, 3, 4])
+        tree = _tree(rng, nargs, nloc)
+        mode = 'compiled' if rng.random() < 0.8 else 'findall'
+        probes = _probes(rng, list(range(nargs)), True) if mode == 'compiled' else [['f', 'w', [['v', v] for v in range(nargs)]]]
+        cases.append({'mode': mode, 'nargs': nargs, 'nvars': nargs + nloc, 'tree': tree, 'alts': _flatten(tree), 'probes': probes,
+                      'shuffle': rng.randrange(50), 'listsyntax': True, 'origin': 'levels'})
     # every order of a few fixed equation sets (outer first / inner first / chains of 1-4 variables)
     for eqs, nv in _fixed_sets():
         perms = list(itertools.permutations(range(len(eqs))))
@@ -200,6 +261,13 @@ def builtin_corpus():
     c('api', [[[v(0), f('.')]]], [v(0)], 1, 1)
     c('compiled', [[[v(0), terms.mklist([v(1)], v(2))], [v(2), terms.mklist([v(1)])], [v(1), f('f', v(3))]],
                    [[v(0), ['a', '[]']]]], [v(0), f('w', v(0))], 1, 4)
+    # p(X) :- X = Y, q(Y).  q(Y) :- Y = Z, r(Z).  q(Y) :- Y = late.  r(early).   X read at every answer
+    for mode in ('compiled', 'findall'):
+        tree = {'eqs': [[v(0), v(1)]], 'kids': [{'eqs': [[v(1), v(2)]], 'kids': [{'eqs': [[v(2), ['a', 'early']]], 'kids': []},
+                                                                                 {'eqs': [[v(2), f('g', v(3))]], 'kids': []}]},
+                                                {'eqs': [[v(1), ['a', 'late']]], 'kids': []}]}
+        L.append({'mode': mode, 'nargs': 1, 'nvars': 4, 'tree': tree, 'alts': _flatten(tree),
+                  'probes': [v(0), f('w', v(0))] if mode == 'compiled' else [f('w', v(0))], 'shuffle': 3, 'listsyntax': True})
     return L
 
 # ---------------------------------------------------------------- model side
@@ -313,12 +381,44 @@ def pl_term(t, names, listsyntax):
         return '%s(%s)' % (name, ','.join(pl_term(a, names, listsyntax) for a in t[2]))
     raise ValueError(t)
 
+def _tree_source(case, names, ls, head):
+    """q(args) :- eqs(root), c0(all variables).   c<N>(all variables) :- eqs(kid), c<kid>(all variables).   one clause
+    per alternative of the choice point N; a leaf ends (compiled mode) with assertz(saved(probes))"""
+    allv = ','.join(names[i] for i in range(case['nvars']))
+    lines = []
+    counter = [0]
+    def goals_of(node):
+        return ['%s = %s' % (pl_term(a, names, ls), pl_term(b, names, ls)) for a, b in node['eqs']]
+    def tail(node):
+        if node['kids']:
+            n = counter[0]; counter[0] += 1
+            pending.append((n, node))
+            return ['c%d(%s)' % (n, allv)]
+        if case['mode'] == 'compiled':
+            return ['assertz(saved(%s))' % ','.join(pl_term(p, names, ls) for p in case['probes'])]
+        return []
+    pending = []
+    g = goals_of(case['tree']) + tail(case['tree'])
+    lines.append('%s :- %s.' % (head, ', '.join(g) if g else 'true'))
+    while pending:
+        n, node = pending.pop(0)
+        for k in node['kids']:
+            g = goals_of(k) + tail(k)
+            lines.append('c%d(%s) :- %s.' % (n, allv, ', '.join(g) if g else 'true'))
+    # clauses of one predicate must be contiguous: they are (each choice point is emitted as a block)
+    return lines
+
 def source_of(case):
     k = case['nargs']
     names = {i: ('A%d' % i if i < k else 'L%d' % i) for i in range(case['nvars'] + 1)}
     ls = case.get('listsyntax', True)
     head = 'q(%s)' % ','.join(names[i] for i in range(k))
     lines = []
+    if case.get('tree'):
+        lines = _tree_source(case, names, ls, head)
+        if case['mode'] == 'findall':
+            lines.append('p(L) :- findall(%s, %s, L).' % (pl_term(case['probes'][0], names, ls), head))
+        return '\n'.join(lines) + '\n'
     for alt in case['alts']:
         goals = ['%s = %s' % (pl_term(a, names, ls), pl_term(b, names, ls)) for a, b in alt]
         if case['mode'] == 'compiled':
@@ -576,6 +676,10 @@ def compare(case, io, mo):
 def nontrivial(case, io):
     if not isinstance(io, dict) or not isinstance(io.get('answers'), list) or not io['answers']:
         return False
+    if case.get('tree'):
+        # bindings above a choice point and at least two answers below it
+        return bool(case['tree']['eqs']) and len(io['answers'][0] if case['mode'] == 'findall' else io['answers']) >= 1 and \
+               sum(1 for a in case['alts'] if a) >= 2
     if case['mode'] == 'findall':
         return any(len(alt) >= 2 for alt in case['alts'])
     return bool(io.get('late'))
@@ -591,7 +695,30 @@ def describe(case):
             pass
     return d
 
+def _tree_shrinks(node):
+    for i in range(len(node['kids'])):
+        if len(node['kids']) > 1:
+            yield {'eqs': node['eqs'], 'kids': node['kids'][:i] + node['kids'][i + 1:]}
+        for sub in _tree_shrinks(node['kids'][i]):
+            yield {'eqs': node['eqs'], 'kids': node['kids'][:i] + [sub] + node['kids'][i + 1:]}
+    for j in range(len(node['eqs'])):
+        yield {'eqs': node['eqs'][:j] + node['eqs'][j + 1:], 'kids': node['kids']}
+    if len(node['kids']) == 1:
+        k = node['kids'][0]
+        yield {'eqs': node['eqs'] + k['eqs'], 'kids': k['kids']}
+
 def shrink(case):
+    if case.get('tree'):
+        c = dict(case); c.pop('tree')        # the same alternatives as flat clauses: does the layout matter?
+        yield c
+        for t in _tree_shrinks(case['tree']):
+            c = dict(case); c['tree'] = t; c['alts'] = _flatten(t)
+            yield c
+        if len(case['probes']) > 1 and case['mode'] != 'findall':
+            for i in range(len(case['probes'])):
+                c = dict(case); c['probes'] = case['probes'][:i] + case['probes'][i + 1:]
+                yield c
+        return
     if len(case['alts']) > 1:
         for i in range(len(case['alts'])):
             c = dict(case); c['alts'] = case['alts'][:i] + case['alts'][i + 1:]
